@@ -255,6 +255,7 @@ static int live(int i) { return i >= 0 && i < nh && H[i].state == H_LIVE; }
 
 #define BAD do { printf("op %s -> bad-op\n", text); obs(); return; } while (0)
 #define RET(v) do { printf("op %s -> ret %lld\n", text, (long long) (v)); obs(); return; } while (0)
+#define RETU(v) do { printf("op %s -> ret %llu\n", text, (unsigned long long) (v)); obs(); return; } while (0)
 
 static void exec_op(char* text0) {
   char text[512]; strncpy(text, text0, sizeof text - 1); text[sizeof text - 1] = 0;
@@ -377,11 +378,11 @@ static void exec_op(char* text0) {
   if (!strcmp(o, "advance") && nw == 2) { vclock_ms += strtoull(w[1], 0, 10); RET(0); }
   if (!strcmp(o, "alive") && nw == 1) RET(uv_loop_alive(&loop) != 0);
   if (!strcmp(o, "backend_timeout") && nw == 1) RET(uv_backend_timeout(&loop));
-  if (!strcmp(o, "now") && nw == 1) RET(uv_now(&loop));
+  if (!strcmp(o, "now") && nw == 1) RETU(uv_now(&loop));
   if (!strcmp(o, "is_active") && nw == 2 && live(i)) RET(uv_is_active(H[i].ptr) != 0);
   if (!strcmp(o, "has_ref") && nw == 2 && live(i)) RET(uv_has_ref(H[i].ptr) != 0);
   if (!strcmp(o, "is_closing") && nw == 2 && live(i)) RET(uv_is_closing(H[i].ptr) != 0);
-  if (!strcmp(o, "due_in") && nw == 2 && live(i) && H[i].kind == K_TIMER) RET(uv_timer_get_due_in((uv_timer_t*) H[i].ptr));
+  if (!strcmp(o, "due_in") && nw == 2 && live(i) && H[i].kind == K_TIMER) RETU(uv_timer_get_due_in((uv_timer_t*) H[i].ptr));
   if (!strcmp(o, "make_readable") && nw == 2 && live(i) && H[i].kind == K_POLL) { if (write(H[i].fd_b, "x", 1) < 0) {} RET(0); }
   if (!strcmp(o, "drain") && nw == 2 && live(i) && H[i].kind == K_POLL) { char b[256]; while (read(H[i].fd_a, b, sizeof b) > 0) {} RET(0); }
   if (!strcmp(o, "run") && nw == 2 && !in_cb) {
